@@ -1,6 +1,10 @@
 package main
 
-import "golang.org/x/tools/go/ssa"
+import (
+	"unicode/utf8"
+
+	"golang.org/x/tools/go/ssa"
+)
 
 func (e *Engine) harnessAPI2(name string, args []Value, fn *ssa.Function) (Value, bool) {
 	if r, ok := e.nodeAPI(name, args); ok {
@@ -28,6 +32,12 @@ func (e *Engine) harnessAPI2(name string, args []Value, fn *ssa.Function) (Value
 		n, _ := e.bigOf(pub.fields[0])
 		e.addPC(e.tt.Cmp("bvuge", n.bl, e.c64(2048)))
 		return p, true
+	case "vUTF8":
+		r := args[0].(StrV).r
+		if b, ok := ropeConcrete(r); ok {
+			return e.tt.Bool(utf8.Valid(b)), true
+		}
+		return e.tt.UF("utf8valid", 0, e.intern("rope", e.ropeKey(r))), true
 	case "vRand":
 		return Iface{typ: e.fake("rand"), val: OpaqueV{kind: "rand"}}, true
 	case "vHash":
